@@ -167,7 +167,9 @@ func (c *RegConfig) ParseOrResolveBlocklisted(provided string) (string, bool) {
 	if err != nil {
 		return "", lookup
 	}
-	if addr == nil || c.isBlocklistedCovertAddr(addr.IP) {
+	// An empty host (":80", "[]:80") resolves without error to an address with
+	// no IP. No subnet contains it and net.Dial would connect to the local host.
+	if addr == nil || addr.IP == nil || c.isBlocklistedCovertAddr(addr.IP) {
 		return "", lookup
 	}
 	return net.JoinHostPort(addr.String(), port), lookup
